@@ -55,6 +55,33 @@ CLAIMS = {
               "opcode in the three pending situations, and all short programs containing HALT, with idle cycles as events of their own."),
         design="5/C05", technique="TLA+ control-state spec + TLC MC (safety, liveness under weak fairness); TLC trace validation of recorded units incl. idle cycles",
         note="Wake-up latency with IME clear is accepted in 0..2 cycles; halt bug followed by CB/HALT and EI directly followed by HALT are not judged."),
+    "C08": dict(
+        category="model_checking",
+        text=("MBC.tla gives each controller's register file and the functions from registers to the mapped ROM banks; TLC explores the complete register state graph of every kind under all control writes "
+              "(address class x all 256 values) and checks range, 0-to-1 remap and low-window invariants. Real cartridges (every kind x declared ROM sizes) are driven through the Mapper with every value on every "
+              "control region, all MBC1 register triples and random sequences; ROM images carry a position-dependent pattern so each window read identifies the mapped page, and TLC validates every read."),
+        design="5/C08", technique="TLA+ register-file spec + TLC exhaustive MC; TLC trace validation of recorded bus operations on patterned ROM images",
+        note="Header combinations the constructor rejects are skipped (counted in the evidence). The pattern function is shared between harness (machine.Sig) and spec (MBC!Sig)."),
+    "C09": dict(
+        category="model_checking",
+        text=("Same module: RAM enable, bank selection (modulo the bank count), MBC2's 512 half-bytes, ROM-only's empty window; TLC checks that control writes preserve RAM, banks are independent and disabled RAM "
+              "addresses nothing. Real cartridges are driven with random enable/bank/read/write sequences and the RAM dump; the spec tracks every written cell (initial contents unpinned) and TLC validates every read and dump byte."),
+        design="5/C09", technique="TLA+ spec with sparse RAM model + TLC MC; TLC trace validation of recorded RAM-window operations and dumps",
+        note="MBC3 select values 08-0C belong to C10; 0D-0F and non-timer MBC3 clock selects are not judged."),
+    "C10": dict(
+        category="model_checking",
+        text=("RTC.tla: ripple-carry increment with out-of-range fields, sub-second count, halt, sticky day carry, latch arming and the masked register file; TLC checks the clauses over boundary counter states x all "
+              "operation sequences to a depth. The real clock is driven through an MBC3+TIMER cartridge: one increment from every counter state (exhaustive in thorough), random latch/read/write/halt histories with elapsed time, "
+              "and full 2^20-cycle seconds; TLC validates every observation."),
+        design="5/C10", technique="TLA+ clock spec + TLC MC; TLC trace validation of recorded clock histories",
+        note="The verif hook sets counters / the sub-second count between events so that a second costs a few real cycles; full-length seconds are run as well."),
+    "C11": dict(
+        category="fault_enumeration",
+        text=("Crash freedom is monitored, not modelled: every driver wraps every call in recover, and dedicated families enumerate images (short/odd/every header type x sizes), every control write on every constructible "
+              "cartridge, random bus sequences, OAM-touching instructions at every scan-line phase, and random / grammar programs in a child process. Crash.tla is the acceptance oracle: the only endings it has actions for are a "
+              "failed construction and a stop on one of the 11 undefined opcodes; TLC rejects any recorded panic or unexplained exit."),
+        design="5/C11", technique="fault enumeration with a TLA+ acceptance oracle validated by TLC (little modelling content, as stated in DESIGN.md section 7)",
+        note="Exploration-level assurance: bounded random programs and enumerated single faults; totality of the block specs (CHECK_DEADLOCK) is the model-side counterpart."),
     "C12": dict(
         category="model_checking",
         text=("Timer.tla (16-bit counter, edge detector, relative overflow/zero/reload pipeline, interrupt bookkeeping) is model-checked by TLC over all operation "
